@@ -6,6 +6,7 @@
 From Coq Require Import List NArith ZArith Bool.
 From Stevia Require Import Base.Res Avl.Impl Avl.Tree Avl.Spec Avl.Inv Avl.LinkInsert Avl.LinkSteps
   Avl.Master Avl.Clauses.
+From Stevia Require Import Avl.FinalMaster.
 Import ListNotations.
 Open Scope N_scope.
 
@@ -50,6 +51,16 @@ Theorem C01_avl_refines_ordered_map : forall bits, remove_spec_statement bits ->
 Proof. exact run_refines_fixed. Qed.
 Print Assumptions C01_avl_refines_ordered_map.
 
+(* the headline, the premise discharged (Avl/FinalMaster.v: the link for
+   [remove] is the theorem [LinkRemove.remove_spec]) *)
+Theorem C01_avl_refines_ordered_map_final : forall bits capacity ops,
+  okbits bits -> capacity < 2 ^ bits -> (bits <> 8 -> capacity + 1 < 2 ^ bits) ->
+  Forall no_ext ops ->
+  exists outs, run_c bits (init_c capacity capacity) ops = map Ok outs /\
+               map out_abs outs = run_s (spec_init capacity) ops.
+Proof. exact run_refines_fixed_final. Qed.
+Print Assumptions C01_avl_refines_ordered_map_final.
+
 (* one step, every operation, from every state of the invariant *)
 Theorem C01_avl_step : forall bits, remove_spec_statement bits ->
   forall s t fr term o,
@@ -63,6 +74,17 @@ Theorem C01_avl_step : forall bits, remove_spec_statement bits ->
 Proof. exact step_refines. Qed.
 Print Assumptions C01_avl_step.
 
+Theorem C01_avl_step_final : forall bits s t fr term o,
+  Inv bits s t fr term -> okbits bits -> sizecond bits s ->
+  (forall n, o = OExt n -> sizecond bits (ext_nodes s n)) ->
+  exists s' out log t' fr' term',
+    step_c bits s o = Ok (s', out, log) /\
+    Inv bits s' t' fr' term' /\
+    (abs_of s' t', out_abs out) = spec_step (abs_of s t) o /\
+    sizecond bits s'.
+Proof. exact step_refines_final. Qed.
+Print Assumptions C01_avl_step_final.
+
 (* the final state of a history satisfies the invariant and represents the
    reference map's final state *)
 Theorem C01_avl_final : forall bits, remove_spec_statement bits ->
@@ -72,6 +94,13 @@ Theorem C01_avl_final : forall bits, remove_spec_statement bits ->
   exists t fr term, Inv bits s t fr term /\ settled s /\ cap s = capacity /\ nrec s = capacity.
 Proof. exact final_fixed. Qed.
 Print Assumptions C01_avl_final.
+
+Theorem C01_avl_final_final : forall bits capacity ops s,
+  okbits bits -> capacity < 2 ^ bits -> (bits <> 8 -> capacity + 1 < 2 ^ bits) ->
+  Forall no_ext ops -> final_c bits (init_c capacity capacity) ops = Ok s ->
+  exists t fr term, Inv bits s t fr term /\ settled s /\ cap s = capacity /\ nrec s = capacity.
+Proof. exact final_fixed_final. Qed.
+Print Assumptions C01_avl_final_final.
 
 (* ---- reachable states ---- *)
 Theorem C01_avl_reach_def : forall bits capacity s,
@@ -90,6 +119,12 @@ Theorem C01_avl_reach_inv : forall bits, remove_spec_statement bits ->
 Proof. exact reach_inv. Qed.
 Print Assumptions C01_avl_reach_inv.
 
+Theorem C01_avl_reach_inv_final : forall bits capacity s,
+  okbits bits -> capacity < 2 ^ bits -> (bits <> 8 -> capacity + 1 < 2 ^ bits) ->
+  reach bits capacity s -> exists t fr term, Inv bits s t fr term /\ sizecond bits s.
+Proof. exact FinalMaster.reach_inv_final. Qed.
+Print Assumptions C01_avl_reach_inv_final.
+
 Theorem C01_avl_final_reach : forall bits, remove_spec_statement bits ->
   forall capacity ops s,
   okbits bits -> capacity < 2 ^ bits -> (bits <> 8 -> capacity + 1 < 2 ^ bits) ->
@@ -97,6 +132,13 @@ Theorem C01_avl_final_reach : forall bits, remove_spec_statement bits ->
   final_c bits (init_c capacity capacity) ops = Ok s -> reach bits capacity s.
 Proof. exact final_reach. Qed.
 Print Assumptions C01_avl_final_reach.
+
+Theorem C01_avl_final_reach_final : forall bits capacity ops s,
+  okbits bits -> capacity < 2 ^ bits -> (bits <> 8 -> capacity + 1 < 2 ^ bits) ->
+  growth_ok bits (spec_init capacity) ops ->
+  final_c bits (init_c capacity capacity) ops = Ok s -> reach bits capacity s.
+Proof. exact final_reach_final. Qed.
+Print Assumptions C01_avl_final_reach_final.
 
 (* ---- the clauses, from every state of the invariant ---- *)
 
@@ -135,6 +177,20 @@ Theorem C01_avl_remove : forall bits, remove_spec_statement bits ->
     (sm_find (inorder t) k = None -> t' = t /\ size s' = size s /\ (settled s -> s' = s)).
 Proof. exact remove_clause. Qed.
 Print Assumptions C01_avl_remove.
+
+Theorem C01_avl_remove_final : forall bits s t fr term k,
+  Inv bits s t fr term -> okbits bits -> sizecond bits s ->
+  exists s' log t' fr' term',
+    step_c bits s (ORemove k) = Ok (s', RVal (sm_find (inorder t) k), log) /\
+    Inv bits s' t' fr' term' /\ sizecond bits s' /\
+    cap s' = N.max (cap s) (nrec s) /\ nrec s' = nrec s /\
+    sm_find (inorder t') k = None /\
+    (forall k', k' <> k -> sm_find (inorder t') k' = sm_find (inorder t) k') /\
+    inorder t' = sm_remove (inorder t) k /\
+    (forall v, sm_find (inorder t) k = Some v -> size s' + 1 = size s) /\
+    (sm_find (inorder t) k = None -> t' = t /\ size s' = size s /\ (settled s -> s' = s)).
+Proof. exact remove_clause_final. Qed.
+Print Assumptions C01_avl_remove_final.
 
 (* lookups: the value the map holds for the key *)
 Theorem C01_avl_get : forall bits s t fr term k,
@@ -179,6 +235,13 @@ Theorem C01_avl_get_after_remove : forall bits, remove_spec_statement bits ->
     exists log', get s' k = Ok (None, log').
 Proof. exact get_after_remove. Qed.
 Print Assumptions C01_avl_get_after_remove.
+
+Theorem C01_avl_get_after_remove_final : forall bits s t fr term k,
+  Inv bits s t fr term -> okbits bits -> sizecond bits s ->
+  exists s' out log, step_c bits s (ORemove k) = Ok (s', out, log) /\
+    exists log', get s' k = Ok (None, log').
+Proof. exact get_after_remove_final. Qed.
+Print Assumptions C01_avl_get_after_remove_final.
 
 (* lowest is the minimum key *)
 Theorem C01_avl_lowest : forall bits s t fr term,
